@@ -46,7 +46,7 @@ CLAIMED = {
                      'scheduled at file-system-call granularity (incl. 3-4 writers contending for one bundle with lock-retry timers '
                      'firing while the holder runs), checked at quiescence. Sequential histories also meet I/O errors (one-shot or sticky) inside '
                      'a store/remove - the bundle must stay structurally valid - and dry-run defragmentations that must not change a byte. A defragmentation may meet one failing open() (it may abort, it must not lose a tile). About one case in 100 '
-                     'extends a bundle beyond 4 GiB as a sparse file on tmpfs and validates it through mmap. About one case in 70 fills 1-8 complete rows of a bundle before defragmenting. The wall clock may step forward while concurrent writers work. In the threads mode a thread may also be switched between two statements of compact.py (line events). Cache directory names vary (also names containing the bundle extension).',
+                     'extends a bundle beyond 4 GiB as a sparse file on tmpfs and validates it through mmap. About one case in 70 fills 1-8 complete rows of a bundle before defragmenting. Every second writer process may reach the cache directory through a symbolic link. The wall clock may step forward while concurrent writers work. In the threads mode a thread may also be switched between two statements of compact.py (line events). Cache directory names vary (also names containing the bundle extension).',
                 note='trusted: the independent parser (checks/bundleparse.py), SimFS; histories and schedules are sampled',
                 technique='deterministic simulation: model-based history checking with an independent bundle parser; seeded schedule search for concurrent bundle writers'),
     'C15': dict(level='exploration', ref='DESIGN.md 6.8',
@@ -58,7 +58,7 @@ CLAIMED = {
                      'once, the call terminates; a second call on the same pool object is judged the same way. Call-site mode: 1-3 request '
                      'threads on one real TileManager each fan out 2-4 tile creations (TileCreator._create_threaded) with seeded failing '
                      'fetches: every caller gets its own tiles in input order, a failure reaches exactly the caller it belongs to. Pool re-use after a first call that the consumer abandoned at the first '
-                     'failing result (as the call sites do), with seeded garbage-collection points during the second call; busy processes (thousands of live threads), one refused thread start, nested fan-outs (up to 24 outer items); module-level semaphores/locks of async_ are scheduler-aware; failing items may all raise the same exception object; the callable handed in is a function, a functools.partial, a callable object or a bound method.',
+                     'failing result (as the call sites do), with seeded garbage-collection points during the second call; busy processes (thousands of live threads), one refused thread start, nested fan-outs (up to 24 outer items); module-level semaphores/locks of async_ are scheduler-aware; failing items may all raise the same exception object; the consumer of a first call may stop early without a shutdown; the callable handed in is a function, a functools.partial, a callable object or a bound method.',
                 note='trusted: SimQueue has queue.Queue semantics; pre-emption only at queue operations and explicit item steps',
                 technique='deterministic simulation: baton-passing scheduler adopting the pool\'s real worker threads, seeded completion-order search'),
     'C08': dict(level='exploration', ref='DESIGN.md 6.4',
@@ -82,7 +82,7 @@ CLAIMED = {
                      'file cache (also with symlinked single-colour tiles) on SimFS or per-level sqlite cache, plus two or three concurrent requests under a refresh rule (the upstream may answer in no time, so that a request is overtaken between its freshness check and its lock); oracle from the timestamps actually recorded: stale tile => '
                      'upstream asked, tile rewritten with the new fetch generation; fresh tile => no upstream call, same '
                      'generation; a failed refresh never removes or changes the stored tile; a tile written during a request is recorded with '
-                     'the time of that write even when the source reports older data; single stored tiles may be aged (mixed-age meta tiles) or disappear; bulk_meta_tiles deployments fetch tile by tile; a disk error may hit the store of a refreshed tile (the old tile must survive); an optional transparent overlay source may fail softly (the uncacheable result must not be stored); the seeding tile manager carries the cache\'s own refresh_before; seed workers may be forked copies of the tile manager; the seed task may come out of the seeding configuration with a tile written between reading it and seeding; absolute thresholds also arrive as datetime objects; the tile manager may be built by the real loader (two grids); same-second band unspecified. Cases run in seeded '
+                     'the time of that write even when the source reports older data; single stored tiles may be aged (mixed-age meta tiles) or disappear; bulk_meta_tiles deployments fetch tile by tile; minimize_meta_requests deployments answer requests for 3-6 tiles from one minimal rectangle; a disk error may hit the store of a refreshed tile (the old tile must survive); an optional transparent overlay source may fail softly (the uncacheable result must not be stored); the seeding tile manager carries the cache\'s own refresh_before; seed workers may be forked copies of the tile manager; the seed task may come out of the seeding configuration with a tile written between reading it and seeding; absolute thresholds also arrive as datetime objects; the tile manager may be built by the real loader (two grids); same-second band unspecified. Cases run in seeded '
                      'fixed-offset local time zones or one with daylight-saving time in force.',
                 note='trusted: simulated clock behind time.time/time.sleep/datetime.now of util/times.py, stub upstream, SimFS mtimes; '
                      'sqlite backend outside the simulator',
